@@ -247,18 +247,22 @@ theorem step (s : State) (m : Spec) (c : Call) (hR : R s m) (hI : Inv s) :
           simp only [he, Option.isSome_some] at hc
           obtain ⟨hew, hem⟩ := emitterOf_some he
           simp only [hc, if_true, hew]
-          refine ⟨by first | trivial | rfl, ⟨hH, ?_, hA, rfl⟩, ?_, ?_, ?_⟩
+          refine ⟨by first | trivial | rfl, ⟨?_, ?_, hA, rfl⟩, ?_, ?_, ?_⟩
+          · intro x
+            simp only [State.handlersOf]
+            rw [handlersOf_aerase, hH]
           · simp only []
             rw [map_watch_filter, hS]
           · simp only []
             rw [map_watch_filter]
             exact hI.nodup.filter _
           · intro e' he'
-            simp only [List.mem_filter] at he'
+            simp only [List.mem_filter, bne_iff_ne, ne_eq] at he'
+            rw [alookup_aerase_ne _ (fun h => he'.2 h.symm)]
             exact hI.hkey e' he'.1
           · intro e' he'
-            simp only [List.mem_filter] at he'
-            exact hI.wmem e' he'.1
+            simp only [List.mem_filter, bne_iff_ne, ne_eq] at he' ⊢
+            exact ⟨hI.wmem e' he'.1, he'.2⟩
         | none =>
           simp only [he, Option.isSome_none] at hc
           simp only [hc, Bool.false_eq_true, if_false]
